@@ -4,6 +4,7 @@ import (
 	"bytes"
 	"context"
 	"fmt"
+	"io"
 	"os"
 	"sort"
 	"testing"
@@ -11,6 +12,7 @@ import (
 	"github.com/notaryproject/notation-go/registry"
 	"github.com/opencontainers/go-digest"
 	ocispec "github.com/opencontainers/image-spec/specs-go/v1"
+	"oras.land/oras-go/v2/content/memory"
 	"oras.land/oras-go/v2/content/oci"
 	"pgregory.net/rapid"
 
@@ -30,6 +32,8 @@ type pushedSig struct {
 	mt   string
 	env  []byte
 	blob digest.Digest
+	// other: pushed for the second artifact (TestC19_ManySignatures)
+	other bool
 }
 
 func TestC19_LayoutHandles(t *testing.T) {
@@ -135,7 +139,7 @@ func TestC19_LayoutHandles(t *testing.T) {
 					rec.Failf(rt, "C19:handles:push-failed", info(), "PushSignature of an ordinary envelope failed: %v", err)
 					return
 				}
-				model[subjects[si].Digest] = append(model[subjects[si].Digest], pushedSig{md.Digest, mt, env, bd.Digest})
+				model[subjects[si].Digest] = append(model[subjects[si].Digest], pushedSig{man: md.Digest, mt: mt, env: env, blob: bd.Digest})
 				pushes++
 			},
 			"new-pushing-handle": func(rt *rapid.T) {
@@ -162,4 +166,136 @@ func TestC19_LayoutHandles(t *testing.T) {
 		}
 		rec.Case(cl, pushes > 0, stats.Fingerprint("c19-handles", fmt.Sprint(ops)), info)
 	})
+}
+
+// TestC19_ManySignatures: the listing is exact however many signatures an artifact has. The
+// sessions keep at most a dozen signatures over three artifacts; here one artifact gets up to
+// 70 (another one a few), through the library's layout constructor and through
+// registry.NewRepository over an in-memory store, and the listing - collected over however many
+// callback invocations the library chooses - must be exactly the pushed set, each fetched
+// byte-for-byte.
+func TestC19_ManySignatures(t *testing.T) {
+	rec := stats.New(t, "C19", rule)
+	rp.Check(t, 160, 3000, func(rt *rapid.T) {
+		ctx := context.Background()
+		kind := rp.Pick(rt, "store", "layout", "memory")
+		n := rp.Pick(rt, "signatures", 1, 7, 8, 9, 10, 15, 16, 17, 18, 31, 32, 33, rapid.IntRange(1, 70).Draw(rt, "signaturesAny"))
+		other := rapid.IntRange(0, 3).Draw(rt, "signaturesOfOtherArtifact")
+		var repo registry.Repository
+		var seed interface {
+			Push(context.Context, ocispec.Descriptor, io.Reader) error
+			Exists(context.Context, ocispec.Descriptor) (bool, error)
+		}
+		reopen := func() registry.Repository { return repo }
+		if kind == "layout" {
+			dir, err := os.MkdirTemp("", "c19-many-")
+			if err != nil {
+				rt.Fatalf("harness: %v", err)
+			}
+			defer os.RemoveAll(dir)
+			st, err := oci.New(dir)
+			if err != nil {
+				rt.Fatalf("harness: oci.New: %v", err)
+			}
+			seed = st
+			reopen = func() registry.Repository {
+				r, err := registry.NewOCIRepository(dir, registry.RepositoryOptions{})
+				if err != nil {
+					rt.Fatalf("harness: NewOCIRepository: %v", err)
+				}
+				return r
+			}
+		} else {
+			st := memory.New()
+			seed = st
+			repo = registry.NewRepository(st)
+		}
+		var subjects []ocispec.Descriptor
+		for _, name := range []string{"a", "b"} {
+			m, layer := artifactManifest(name, "many")
+			for _, x := range []struct {
+				mt string
+				b  []byte
+			}{{ocispec.MediaTypeEmptyJSON, []byte("{}")}, {"application/vnd.example.layer", layer}, {mtImage, m}} {
+				d := ocispec.Descriptor{MediaType: x.mt, Digest: digest.FromBytes(x.b), Size: int64(len(x.b))}
+				if ok, _ := seed.Exists(ctx, d); ok {
+					continue
+				}
+				if err := seed.Push(ctx, d, bytes.NewReader(x.b)); err != nil {
+					rt.Fatalf("harness: seeding: %v", err)
+				}
+			}
+			subjects = append(subjects, ocispec.Descriptor{MediaType: mtImage, Digest: digest.FromBytes(m), Size: int64(len(m))})
+		}
+		if kind == "layout" {
+			repo = reopen()
+		}
+		want := map[digest.Digest]pushedSig{}
+		info := map[string]any{"store": kind, "signatures": n, "signatures_of_other_artifact": other}
+		for i := 0; i < n+other; i++ {
+			subj := subjects[0]
+			if i%(n/(other+1)+1) == n/(other+1) && other > 0 && len(want) > 0 && i >= n/(other+1) && countOther(want) < other {
+				subj = subjects[1]
+			}
+			mt := []string{mtJOSE, mtCOSE}[i%2]
+			env := []byte(fmt.Sprintf("envelope %d of %d", i, n))
+			bd, md, err := repo.PushSignature(ctx, mt, env, subj, map[string]string{"n": fmt.Sprint(i)})
+			if err != nil {
+				rec.Failf(rt, "C19:many:push-failed", info, "PushSignature %d failed: %v", i, err)
+			}
+			want[md.Digest] = pushedSig{man: md.Digest, mt: mt, env: env, blob: bd.Digest, other: subj.Digest == subjects[1].Digest}
+		}
+		for _, h := range []struct {
+			name string
+			r    registry.Repository
+		}{{"pushing-handle", repo}, {"fresh-handle", reopen()}} {
+			var listed []ocispec.Descriptor
+			calls := 0
+			if err := h.r.ListSignatures(ctx, subjects[0], func(ds []ocispec.Descriptor) error { calls++; listed = append(listed, ds...); return nil }); err != nil {
+				rec.Failf(rt, "C19:many:list-failed:"+h.name, info, "ListSignatures failed: %v", err)
+			}
+			seen := map[digest.Digest]int{}
+			for _, d := range listed {
+				seen[d.Digest]++
+				p, ok := want[d.Digest]
+				if !ok || p.other {
+					rec.Failf(rt, "C19:many:listed-foreign:"+h.name, info, "listing of the artifact yields %s, which was not pushed for it", d.Digest)
+				}
+				env, bd, err := h.r.FetchSignatureBlob(ctx, d)
+				if err != nil || !bytes.Equal(env, p.env) || bd.MediaType != p.mt {
+					rec.Failf(rt, "C19:many:fetch-differs:"+h.name, info, "signature %s: fetched %q (%s, err %v), pushed %q (%s)", d.Digest, env, bd.MediaType, err, p.env, p.mt)
+				}
+			}
+			missing, repeated := 0, 0
+			for dg, p := range want {
+				if !p.other && seen[dg] == 0 {
+					missing++
+				}
+				if seen[dg] > 1 {
+					repeated++
+				}
+			}
+			if missing > 0 || repeated > 0 {
+				rec.Failf(rt, "C19:many:listing-differs:"+h.name, info, "%d signatures pushed for the artifact; the listing (%d callback calls, %d entries) misses %d of them and repeats %d", len(want)-countOther(want), calls, len(listed), missing, repeated)
+			}
+		}
+		cl := []string{"many-signatures", "many-store=" + kind}
+		switch {
+		case n >= 33:
+			cl = append(cl, "signatures-of-one-artifact>=33")
+		case n >= 9:
+			cl = append(cl, "signatures-of-one-artifact>=9")
+		}
+		rec.Case(cl, n >= 2, stats.Fingerprint("c19-many", kind, n, other), func() any { return info })
+	})
+}
+
+func countOther(m map[digest.Digest]pushedSig) int {
+	c := 0
+	for _, p := range m {
+		if p.other {
+			c++
+		}
+	}
+	return c
 }
